@@ -114,6 +114,10 @@ func vfRunFirstContact(c vfStreamCase, seed uint64) (viols []vfViol, info string
 		viols = append(viols, vfViol{kind, key, fmt.Sprintf(f, a...)})
 	}
 	stall := vfStartStall()
+	// the outbound mailbox table (mailbox_central.go) carries yield points (vinstr); lock-free fuzz mode widens the window
+	// in which several goroutines look up the mailbox of an address that is contacted for the first time
+	verifrt.Begin(verifrt.ModeFuzzFree, seed, 0)
+	defer verifrt.End()
 	addrB := vfFreeAddr()
 	b, err := vfStartNode(addrB, addrB)
 	if err != nil {
@@ -152,6 +156,27 @@ func vfRunFirstContact(c vfStreamCase, seed uint64) (viols []vfViol, info string
 		a.obs.mu.Unlock()
 		if err := a.stop(); err != nil {
 			add("c11-stop", "Stop", "sending system of round %d: %v", k, err)
+		}
+		if len(viols) > 0 {
+			// one witness is enough (a Stop that runs into its 40 s bound in every round would otherwise take hours); judge what
+			// was sent so far
+			for id := range sent {
+				if id/10 > k {
+					delete(sent, id)
+				}
+			}
+			c.FirstContacts = k + 1
+			break
+		}
+		// the per-round check: order and exactly-once must hold from the very first message on
+		var early []vfViol
+		vfCheckStream(b.sink.snapshot(), sent, false, func(kind, key, f string, a ...any) {
+			early = append(early, vfViol{kind, key, fmt.Sprintf(f, a...)})
+		})
+		if len(early) > 0 {
+			viols = append(viols, early[0])
+			c.FirstContacts = k + 1
+			break
 		}
 	}
 	total := int64(c.FirstContacts * g * per)
